@@ -147,8 +147,13 @@ func observe(c *core.Ctx, pool *gjs.Pool, batch []*scenario, inject string) (*ba
 	return &batchRun{dir: dir, obs: obs, prog: prog}, true
 }
 
-// pinnedFamilies: F1 defers F2 and calls Goexit; F2 calls F3, which has a defer statement, and prints afterwards.
+// pinnedFamilies: (1, 2) F1 defers F2 and calls Goexit; F2 calls F3, which has a defer statement, and carries on
+// afterwards (deviation `goexit`). (3) while F1's panic runs F1's deferred calls, the deferred F2 calls F3, whose
+// panic F2 recovers, so that `throw null` passes the wrapper frames of the call of F3; then F1's next deferred
+// function recovers: the shape in which a $stackDepthOffset that is not restored (invariant OffsetBalance of
+// UnwindJS.tla) becomes visible in the output.
 var pinnedFamilies = []string{
+	`[[["defer",["rec",11]],["defer",["call",2]],["panic",1]],[["defer",["rec",21]],["call",3]],[["panic",2]]]`,
 	`[[["defer",["call",2]],["emit",11],["goexit"]],[["call",3],["emit",21]],[["defer",["emit",31]],["ret",6]]]`,
 	`[[["defer",["call",2]],["goexit"]],[["defer",["rec",21]],["call",3],["emit",22]],[["defer",["rec",31]],["panic",1]]]`,
 }
